@@ -25,7 +25,7 @@ struct Case {
     bound: usize,
     /// concrete flavours: 0 none, 1 field type `RecI` (inherent methods named clone / clone_from), 2 tuple-typed
     /// fields `(Rec, u8)`, 3 `#[repr(C)]` on the item, 4 the definition comes out of a `macro_rules!` macro that gets
-    /// the field type `Rec` as a `ty` fragment, 5 as an `ident` fragment (the token keeps the span of the macro's caller), 6 (generic) a const parameter declared before the type parameter: `X<const K: usize, T>`
+    /// the field type `Rec` as a `ty` fragment, 5 as an `ident` fragment (the token keeps the span of the macro's caller), 6 (generic) a const parameter declared before the type parameter: `X<const K: usize, T>`, 7 (generic) `X<T: Src>` whose fields have the projection type `T::Out` (the parameter only as the head of a path)
     special: usize,
     entry: Entry,
 }
@@ -45,15 +45,15 @@ fn gen(ch: &mut Ch, thorough: bool) -> Option<Case> {
     let with_copy = ch.flag();
     let raw = ch.flag();
     let bound = ch.pick(4);
-    let special = ch.pick(7);
+    let special = ch.pick(8);
     let entry = *ch.of(&Entry::BOTH);
     if wide != 0 && (raw || bound != 0 || special != 0) {
         return None;
     }
-    if special == 6 && !(generic && !with_copy && !raw && bound == 0 && wide == 0 && shape.total_fields() > 0 && shape.variants.len() <= 2) {
+    if special >= 6 && !(generic && !with_copy && !raw && bound == 0 && wide == 0 && shape.total_fields() > 0 && shape.variants.len() <= 2) {
         return None;
     }
-    if special != 0 && special != 6 && (generic || with_copy || raw || bound != 0 || shape.total_fields() == 0 || entry == Entry::Derive && shape.variants.len() > 1) {
+    if special != 0 && special < 6 && (generic || with_copy || raw || bound != 0 || shape.total_fields() == 0 || entry == Entry::Derive && shape.variants.len() > 1) {
         return None;
     }
     if raw && (generic || with_copy || entry == Entry::Derive || !shape.variants.iter().any(|v| v.kind == SKind::Named && v.n > 0)) {
@@ -92,7 +92,7 @@ fn field_ty(c: &Case, _vi: usize, fi: usize) -> String {
     } else if !c.generic {
         "Rec".into()
     } else if fi % 2 == 0 {
-        "T".into()
+        if c.special == 7 { "T::Out".into() } else { "T".into() }
     } else {
         "RecG<T>".into()
     }
@@ -128,7 +128,7 @@ fn build_inner(c: &Case, tier: &str) -> XCase {
     let sh = &c.shape;
     let ty = |vi: usize, fi: usize| field_ty(c, vi, fi);
     let noattrs = |vi: usize, fi: usize| if c.bound == 2 && vi == 0 && fi == 0 { vec!["#[derive_ex(Clone(bound(T: ::core::clone::Clone)))]".to_string()] } else { Vec::new() };
-    let mut item = sh.item(if c.special == 6 { "<const K: usize, T>" } else if c.generic { "<T>" } else { "" }, &ty, &noattrs);
+    let mut item = sh.item(if c.special == 7 { "<T: Src>" } else if c.special == 6 { "<const K: usize, T>" } else if c.generic { "<T>" } else { "" }, &ty, &noattrs);
     if c.bound == 3 {
         if let Body::Enum(vs) = &mut item.body {
             vs[0].attrs.push("#[derive_ex(Clone(bound()))]".into());
@@ -142,6 +142,9 @@ fn build_inner(c: &Case, tier: &str) -> XCase {
     let selfty = if c.special == 6 { "X<3, Rec>" } else if c.generic { "X<Rec>" } else { "X" };
     let mut s = String::new();
     s.push_str("use derive_ex::{derive_ex, Ex};\nuse dxrt::{Rec, RecC, RecG, RecI, take_log, take_log_str};\n");
+    if c.special == 7 {
+        s.push_str("pub trait Src { type Out; }\nimpl Src for Rec { type Out = Rec; }\n");
+    }
     if c.special == 4 || c.special == 5 {
         s.push_str(&format!("macro_rules! mk_item {{ ($t:{}) => {{\n{head}\n{}\n}} }}\nmk_item!(Rec);\ntype S = {selfty};\n", if c.special == 4 { "ty" } else { "ident" }, crate::c10::replace_word(&item.print(), "Rec", "$t")));
     } else {
